@@ -1,11 +1,12 @@
-// C08: sequences of operations on BDD-encoded automata that come to share one transition table.  UnionDisjointStates
-// returns a copy of its left operand (sharing the operand's table) to which the right operand's transitions are added,
-// so the history of calls decides which automata live in one table.  Every sequence starts with
+// C08: two-call sequences of operations on BDD-encoded automata: whether a call disturbs an automaton that exists
+// already depends on which automata share a transition table, i.e. on the history of calls.  (Until /repo f5625b84
+// UnionDisjointStates returned a copy of its left operand that shared - and was written into - the operand's table:
+// known finding C08-2, found by SEQ 1.)  Every sequence starts with
 //     R1 = UnionDisjointStates(A, B)            (A over states q0.., B over the following state numbers)
 // and continues with SEQ:
 //   1  R2 = UnionDisjointStates(A, C), C over the same state numbers as B (disjoint from A's, as the call requires)
-//   2  R2 = Union(A, R1)                 (operands share a table)        expected L(A) u L(B)
-//   3  R2 = Intersection(A, R1)          (operands share a table)        expected L(A)
+//   2  R2 = Union(A, R1)                                                 expected L(A) u L(B)
+//   3  R2 = Intersection(A, R1)                                          expected L(A)
 //   4  R2 = R1.RemoveUselessStates(), R3 = A.RemoveUnreachableStates()   expected L(R1), L(A); no useless state in R2
 //   5  R2 = UnionDisjointStates(R1, C), C over fresh state numbers       expected L(A) u L(B) u L(C)
 //   6  (ENC 0) T1 = R1.GetTopDownAut(), T2 = A.GetTopDownAut()           expected L(R1), L(A)
@@ -84,8 +85,9 @@ extern "C" void harness(void)
   Big eAC = join(eA, eC);
   same(r2, full, eAC, 20); same(c, full, eC, 22);
 #elif SEQ == 2
-  AutT r2 = AutT::Union(a, r1);
-  same(r2, full, eAB, 20);
+  AutT r2 = AutT::Union(a, r1);               // renumbers the states of both operands unless they share a table
+  { enum { NU = NA + NALL }; static_assert(NU <= BA::MAXQ, "too many states in the union");
+    BA::Dump<NU> d = BA::dump<NU>(r2, full); CHECK(d.ok, 20); CHECK(BA::sameLang(eAB, d.aut), 21); }
 #elif SEQ == 3
   AutT r2 = AutT::Intersection(a, r1);
   { enum { NP = NA * (NA + NB) }; static_assert(NP <= BA::MAXQ, "too many product states");
